@@ -39,7 +39,7 @@ def dump(crate, log=None):
     return out, dt
 
 
-def load(crates, fresh=True):
+def load(crates, fresh=True, src_only=()):
     """returns (Program, info)"""
     import sys
     sys.path.insert(0, os.path.dirname(os.path.abspath(__file__)))
@@ -55,8 +55,8 @@ def load(crates, fresh=True):
         fs, errs = parse_file(path, crate=c)
         info['crates'][c] = {'functions': len(fs), 'unparsed_lines': len(errs)}
         funcs += fs
-    prog = Program(funcs, scan_enums(crates))
-    prog.structs = scan_structs(crates)
+    prog = Program(funcs, scan_enums(list(crates) + list(src_only)))
+    prog.structs = scan_structs(list(crates) + list(src_only))
     return prog, info
 
 
